@@ -214,9 +214,22 @@ def scan(run):
     run.extra['scan_clock_readers'] = clock_fns
     bad_clock = [f for f in clock_fns if f not in ('limits_exceeded', 'iter_deep', 'bench')]
     if hits or not zseed_fixed or bad_clock:
-        run.violation('a source of nondeterminism is reachable from the search: %s %s %s' % (hits[:4], '' if zseed_fixed else '(Zobrist seed not constant)',
-                                                                                            ('clock read in ' + str(bad_clock)) if bad_clock else ''),
-                      {'hits': [list(h) for h in hits[:20]], 'clock_readers': clock_fns})
+        # The scan is syntactic: it sees that state carried across searches or a nondeterministic input is *reachable*, not that
+        # it changes a result (a recycled buffer that is wiped correctly is reachable too).  So it is reported as a violation
+        # only together with a concrete search whose (move, score, nodes) differ between runs; otherwise the answer is "no verdict".
+        what = 'a source of nondeterminism / cross-search state is reachable from the search: %s %s %s' % (
+            hits[:4], '' if zseed_fixed else '(Zobrist seed not constant)', ('clock read in ' + str(bad_clock)) if bad_clock else '')
+        from . import searchreplay
+        try:
+            res = searchreplay.det_battery(run)
+        except Exception:
+            res = 'unavailable'
+        if isinstance(res, list):
+            rec = dict(res[1])
+            rec.update({'hits': [list(h) for h in hits[:20]], 'clock_readers': clock_fns})
+            run.violation('%s; on the real engine: %s' % (what, res[0]), rec)
+        else:
+            run.inconclusive.append('SCAN: %s -- no run-to-run difference found by the repeat-search battery (%s); syntactic finding only, no verdict' % (what, res))
 
 
 def worker(run, job):
@@ -254,4 +267,5 @@ def check(run, replay=None):
     run.stubs |= {'abstract game', 'clock: fresh non-decreasing values', 'bench: from_fen and Search::search summarised'}
     run.parallel(worker, jobs)
     from . import searchreplay
-    searchreplay.confirm_on_real_engine(run, 'det')
+    if not any('on the real engine' in v['what'] for v in run.violations):
+        searchreplay.confirm_on_real_engine(run, 'det')
